@@ -27,7 +27,7 @@
     events are processed, and the quiescent state reached has every job ended. *)
 From Coq Require Import List ZArith Bool Arith Lia.
 From RV Require Import Model.JobMachine Proofs.JobBase Proofs.JobRes Proofs.JobRes3 Proofs.JobWake Proofs.JobWake2
-  Proofs.JobLive Proofs.JobLive4 Proofs.JobDup2 Proofs.JobQuiesce Proofs.JobTerm.
+  Proofs.JobLive Proofs.JobLive4 Proofs.JobDup2 Proofs.JobQuiesce Proofs.JobTerm Proofs.JobNoDry.
 Import ListNotations.
 Open Scope list_scope.
 
@@ -138,6 +138,21 @@ Proof.
   apply (C09_no_stuck_waiting c ops H1 H2 H4 H5 H6 H7 Hq). intros j x Hx. apply (Hrun j x Hx).
 Qed.
 
+(** ... and outside dry runs "ended" means settled with a value or an error: "each job created ends done, cached or
+    failed". *)
+Theorem C09_quiescent_every_job_settled : forall c ops,
+  release_if_holds (vr c) = true -> recheck_on_skip (vr c) = true -> pending_owner_safe (vr c) = true ->
+  dryrun c = false -> (forall r, (0 <= limit_of c r)%Z) ->
+  Forall wf_op ops -> Forall (feas_op c) ops ->
+  queue (run c ops) = [] ->
+  (forall j x, getj (run c ops) j = Some x -> jphase x <> PSubmitted /\ jphase x <> PEvaluating) ->
+  forall j x, getj (run c ops) j = Some x -> exists o, jphase x = PSettled o.
+Proof.
+  intros c ops H1 H2 H3 H4 H5 H6 H7 Hq Hrun j x Hx.
+  destruct (C09_quiescent_all_settled c ops H1 H2 H3 H4 H5 H6 H7 Hq Hrun j x Hx) as [E|E]; [exact E|].
+  exfalso. exact (ND_run c H4 ops j x Hx E).
+Qed.
+
 (** Non-vacuity: the repaired witness schedule, run to quiescence, meets every premise and has 4 settled jobs. *)
 Definition c09_full : list op :=
   c09_witness ++ [ OPop 0 3 CMiss; OComplete 3 true 0%Z; OPop 1 3 CMiss; OEval 3 (Ok 1%Z); OPop 3 3 CMiss ].
@@ -174,6 +189,7 @@ Print Assumptions C09_event_lowers_potential.
 Print Assumptions C09_events_bounded.
 Print Assumptions C09_no_lost_event.
 Print Assumptions C09_quiescent_all_settled.
+Print Assumptions C09_quiescent_every_job_settled.
 Print Assumptions C09_waiting_has_waker_partial.
 Print Assumptions C09_no_stuck_waiting.
 Print Assumptions C09_refuted_without_recheck.
